@@ -1264,10 +1264,11 @@ class sptensor:
         valid, idx = tt_ismember_rows(wsubs, self.subs)
         matching_indices = idx[valid]
 
-        # Assemble return array
+        # Assemble return array: entry k belongs to the k-th subscript of the mask
         nvals = wsubs.shape[0]
         vals = np.zeros((nvals, 1))
-        vals[matching_indices] = self.vals[matching_indices]
+        if matching_indices.size > 0:
+            vals[valid] = self.vals[matching_indices]
         return vals
 
     def mttkrp(
